@@ -72,4 +72,6 @@ Apply(cls, rows, ev) ==
       [] ev.op = "ids" -> GetIds(rows, ev.ids)
       [] ev.op = "keep_rows" -> KeepRows(cls, rows, ev.keep)
       [] ev.op = "copy" -> Res(TRUE, rows, <<>>)
+      \* append_columns with zero rows but a ragged column that carries data (its single offset is not 0): malformed, refused
+      [] ev.op = "append_stray" -> Fail(rows)
 =============================================================================
